@@ -138,6 +138,46 @@ def task(t):
         return (t, [('err', 'harness', repr(e)[:200])] * len(vals))
 
 
+
+def nested_task(t):
+    """cast(cast(x, mid), tgt) written inline and as two statements, at scalar and component level, on the same values.
+    -> (t, {'sc': [(two_step, nested) per value], 'dc': [...]}) with outcomes ('ok', type, value) | ('err', class, code)"""
+    src, mid, tgt, vals = t
+    import eng
+    import pandas as pd
+    from vtlengine import run
+    out = {}
+    try:
+        pairs = []
+        for v in vals:
+            S = eng.structures(scalars=[{'name': 'sc_1', 'type': src}])
+            res = []
+            for script, name in (('a <- cast(sc_1, %s); r <- cast(a, %s);' % (VT[mid], VT[tgt]), 'r'),
+                                 ('r <- cast(cast(sc_1, %s), %s);' % (VT[mid], VT[tgt]), 'r')):
+                o = guarded(run, script=script, data_structures=S, datapoints={}, scalar_values={'sc_1': v})
+                res.append(('ok', tname(o[1][name].data_type), canon(o[1][name].value)) if o[0] == 'ok' else err_of(o))
+            pairs.append(tuple(res))
+        out['sc'] = pairs
+        S = eng.structures(eng.structure('DS_1', [eng.comp('Id_1', 'Integer', 'Identifier'), eng.comp('Me_1', src, 'Measure')]))
+        pairs = []
+        for v in vals:
+            df = pd.DataFrame({'Id_1': [1], 'Me_1': [v]})
+            res = []
+            for script in ('T_1 := DS_1[calc Me_2 := cast(Me_1, %s)]; r <- T_1[calc Me_3 := cast(Me_2, %s)];' % (VT[mid], VT[tgt]),
+                           'r <- DS_1[calc Me_3 := cast(cast(Me_1, %s), %s)];' % (VT[mid], VT[tgt])):
+                o = guarded(run, script=script, data_structures=S, datapoints={'DS_1': df.copy()})
+                if o[0] == 'ok':
+                    r = o[1]['r']
+                    res.append(('ok', tname(r.components['Me_3'].data_type), canon(list(r.data['Me_3'])[0]) if len(r.data) else '<no row>'))
+                else:
+                    res.append(err_of(o))
+            pairs.append(tuple(res))
+        out['dc'] = pairs
+    except BaseException as e:  # noqa: BLE001
+        out['harness'] = repr(e)[:200]
+    return (t, out)
+
+
 def sem_pair(src, tgt):
     """semantic_analysis at the three levels -> {level: ('ok', type, measure name or None) | ('err', class, code)}."""
     import eng
@@ -317,6 +357,7 @@ def main(ck):
         if doc: return doc['explicit'].get((s, t)) == 'y' or doc['implicit'].get((s, t)) == 'y'
         return None
     n_table = n_vals = 0
+    bad_direct = set()      # (source, target, level) whose DIRECT cast already deviates from the documented conversion
     level_name = {'sc': 'scalar', 'dc': 'component', 'ds': 'dataset'}
     for (s, t) in pairs:
         so = sem[(s, t)]
@@ -373,6 +414,7 @@ def main(ck):
                 if o[0] == 'err' and o[1] in ('harness', 'raw') and 'timeout' in str(o):
                     k1_bad.append(('engine', 'timeout on %s' % ((s, t, lv, rv),))); cat = None
                 if cat:
+                    bad_direct.add((s, t, lv))
                     ck.violation('cast_value:%s->%s:%s:%s' % (s, t, level_name[lv], cat),
                                  {'source_type': s, 'target_type': t, 'level': level_name[lv], 'value': v,
                                   'script': {'sc': 'r <- cast(sc_1, %s);  (scalar_values sc_1 = value)', 'dc': 'r <- DS_1[calc Me_2 := cast(Me_1, %s)];', 'ds': 'r <- cast(DS_1, %s);'}[lv] % VT[t],
@@ -392,6 +434,37 @@ def main(ck):
     some = [(k, v) for k, v in eng_out.items() if k[0] == 'Number' and k[1] == 'Integer'][:2]
     for k, (v, o) in some: ck.sample({'cast': k[:3], 'value': v, 'engine': repr(o), 'documented': showspec(lean.get(specq.get((k[0], k[1], k[3])), '?'))})
     ck.note('value_pool', {k: [repr(x) for x in v] for k, v in pool_vals.items()})
+
+    # ---------------------------------------------------------------- 4b. nested casts = the same casts one after the other
+    triples = [(a, m, b) for (a, m) in pairs for (m2, b) in pairs if m2 == m and a != m and m != b and allowed(a, m) and allowed(m, b)]
+    if ck.quick():
+        ck.rng.shuffle(triples)
+        keep_t = [x for x in triples if 'Time_Period' in x or 'Date' in x or 'Time' in x][:40] + triples[:40]
+        triples = sorted(set(keep_t))
+    ntasks = [(a, m, b, [v for v in pool_vals.get(a, [])[:(3 if ck.quick() else 8)]]) for (a, m, b) in triples]
+    n_nested = 0
+    if ntasks:
+        with mp.get_context('fork').Pool(procs) as pool:
+            nres = pool.map_async(nested_task, ntasks, chunksize=1).get(timeout=2400 if ck.quick() else 6000)
+        for (a, m, b, vs), out in nres:
+            for lv in ('sc', 'dc'):
+                for v, (two, nest) in zip(vs, out.get(lv, [])):
+                    ck.count(('nested', a, m, b, lv, repr(v)))
+                    n_nested += 1
+                    if two[0] != 'ok':
+                        continue            # the inner value is not convertible: nothing to compare
+                    if (m, b, lv) in bad_direct or (a, m, lv) in bad_direct:
+                        continue            # the reference itself (a direct cast) deviates: reported by the direct-cast stream
+                    def nrm(o):
+                        return ('ok', o[1], round(o[2], 9) if isinstance(o[2], float) else o[2]) if o[0] == 'ok' else ('error',) + tuple(o[1:3])
+                    if nrm(two) != nrm(nest):
+                        ck.violation('cast_nested:%s->%s->%s:%s:differs-from-two-steps' % (a, m, b, level_name[lv]),
+                                     {'source_type': a, 'value': v, 'level': level_name[lv],
+                                      'script_nested': ('r <- cast(cast(sc_1, %s), %s);' if lv == 'sc' else 'r <- DS_1[calc Me_3 := cast(cast(Me_1, %s), %s)];') % (VT[m], VT[b]),
+                                      'two_steps': repr(two), 'nested': repr(nest)},
+                                     'cast(cast(%r : %s, %s), %s) at %s level gives %s, the two casts one after the other give %s' % (
+                                         v, a, VT[m], VT[b], level_name[lv], repr(nest[1:])[:80], repr(two[1:])[:80]))
+    ck.note('nested_cast_comparisons', n_nested)
 
     # ---------------------------------------------------------------- 5. verdicts for broken proof / correspondence
     for e in shape_errors: ck.unproved('translator', e)
